@@ -5,8 +5,20 @@
 // lengths, snapshot catalogue, last-applied index); after EVERY acknowledged message the index file is re-read from disk with
 // the real RaftIndexInnerManager::init (what a restart does) and compared with a model of the statement: the message replaces
 // exactly its own fields, everything else keeps its last acknowledged value; what the live actor answers to LoadIndexInfo
-// must be the same.
+// must be the same.  Sequences also contain RESTARTS (op 99): the directory is copied byte for byte, a fresh actor is started on
+// the copy (what a new process does on the same data directory) and the history goes on there — a save made by a process
+// that OPENED a populated file must be as durable as one made by the process that created it.
 use super::*;
+
+const RESTART: usize = 99;
+
+fn copy_dir(from: &std::path::Path, to: &std::path::Path) {
+    std::fs::create_dir_all(to).unwrap();
+    for e in std::fs::read_dir(from).unwrap() {
+        let e = e.unwrap();
+        if e.file_type().unwrap().is_file() && !e.file_name().to_string_lossy().ends_with(".reopen") { std::fs::copy(e.path(), to.join(e.file_name())).unwrap(); }
+    }
+}
 
 #[derive(Clone, Debug, PartialEq, Default)]
 struct Model {
@@ -69,6 +81,10 @@ fn vx_bounded_index_actor() {
         let mut seqs: Vec<Vec<usize>> = vec![];
         for a in 0..OPS { seqs.push(vec![a]); for b in 0..OPS { seqs.push(vec![a, b]); for c in 0..OPS { seqs.push(vec![a, b, c]);
             for d in 0..OPS { if (a + b + c + d) % 3 == 0 { seqs.push(vec![a, b, c, d]); } } } } }
+        // restarts between the saves (every 2-sequence, every 3-sequence with one restart at either place, half of them with two)
+        for a in 0..OPS { for b in 0..OPS { seqs.push(vec![a, RESTART, b]); for c in 0..OPS {
+            seqs.push(vec![a, RESTART, b, c]); seqs.push(vec![a, b, RESTART, c]);
+            if (a + b + c) % 2 == 0 { seqs.push(vec![a, RESTART, b, RESTART, c]); } } } }
         let mut checked = 0u64;
         let mut short_lost = 0u64;
         let mut short_example = String::new();
@@ -76,11 +92,38 @@ fn vx_bounded_index_actor() {
             let dir = base.join(format!("n{}", n));
             std::fs::create_dir_all(&dir).unwrap();
             let dir_s = dir.to_string_lossy().to_string();
-            let actor = RaftIndexManager::new(Arc::new(dir_s.clone())).start();
-            let file = dir.join("index").to_string_lossy().to_string();
+            let mut actor = RaftIndexManager::new(Arc::new(dir_s.clone())).start();
+            let mut file = dir.join("index").to_string_lossy().to_string();
+            let mut cur_dir = dir.clone();
+            let mut generation = 0usize;
             let mut model = Model::default();
-            let name = seq.iter().map(|x| x.to_string()).collect::<Vec<_>>().join("-");
+            let name = seq.iter().map(|x| if *x == RESTART { "R".to_string() } else { x.to_string() }).collect::<Vec<_>>().join("-");
             for (step, &i) in seq.iter().enumerate() {
+                if i == RESTART {
+                    // every acknowledged save has reached the file (one round trip through the actor), then a new process opens a copy
+                    let _ = actor.send(RaftIndexRequest::LoadIndexInfo).await;
+                    generation += 1;
+                    let next = dir.join(format!("restart{}", generation));
+                    copy_dir(&cur_dir, &next);
+                    actor = RaftIndexManager::new(Arc::new(next.to_string_lossy().to_string())).start();
+                    file = next.join("index").to_string_lossy().to_string();
+                    cur_dir = next;
+                    let live = match actor.send(RaftIndexRequest::LoadIndexInfo).await.unwrap() {
+                        Ok(RaftIndexResponse::RaftIndexInfo { raft_index, last_applied_log }) => view(&raft_index, last_applied_log),
+                        _ => { failures.push(format!("VX-BOUNDED-FAIL LOAD {} step {}: no index info after the restart", name, step)); break; }
+                    };
+                    // (a hard state saved alone gives an image of <= 20 bytes: recorded finding S5 — the model follows what the file
+                    // holds there, the loss itself is reported by the SHORT-IMAGE probe)
+                    let short = std::fs::metadata(&file).map(|m| m.len()).unwrap_or(0) <= 20;
+                    // the last-applied header is written without a flush and is not part of C05's statement: the history goes on
+                    // with whatever the restarted process read
+                    model.applied = live.applied;
+                    if live != model {
+                        if short { model = Model { applied: model.applied, ..live.clone() }; }
+                        else if failures.len() < 12 { failures.push(format!("VX-BOUNDED-FAIL RESTART {} step {}: the restarted actor serves {:?}, acknowledged was {:?}", name, step, live, model)); }
+                    }
+                    continue;
+                }
                 let msg = op(i, &mut model);
                 if actor.send(msg).await.unwrap().is_err() {
                     failures.push(format!("VX-BOUNDED-FAIL SAVE {} step {}: the save was refused", name, step));
